@@ -2718,3 +2718,358 @@ Proof.
       rewrite Hst, Hdet, Hdf, Hsafe, Hrdy, Hres. unfold ST_PENDING.
       apply N.ltb_lt in H1, H2. rewrite H1, H2. cbn. rewrite orb_true_r. reflexivity.
 Qed.
+
+(* ------------------------------------------------------------------------------------------ *)
+(* More flag soundness: step creation, file state and _implied_need, detach/reattach and _safe  *)
+(* ------------------------------------------------------------------------------------------ *)
+
+(* ---- a new step row (Step.initialize_row on a fresh node) ---- *)
+
+Lemma find_app_other (l : list step) (n : step) x : s_key n <> x ->
+  find (fun s => s_key s =? x) (l ++ [n]) = find (fun s => s_key s =? x) l.
+Proof.
+  intros Hx. induction l as [|a l IH]; cbn [app find].
+  - destruct (s_key n =? x) eqn:E; [apply N.eqb_eq in E; congruence | reflexivity].
+  - destruct (s_key a =? x); [reflexivity | exact IH].
+Qed.
+
+Section CreateStep.
+  Variable g : graph.
+  Variables (k : N) (creator : option N) (det : bool) (need : N) (safe stored : bool) (dur : N)
+            (res : list (str * N)).
+  Let n := mkStep k init_state need false 0 0 det creator safe safe need false stored stored
+                  (negb safe) true true dur 1 res.
+  Let g' := create_step g k creator det need safe stored dur res.
+  Hypothesis Hfresh : ~ In k (map s_key (g_steps g)).
+  Hypothesis Hnodeps : forall d, In d (g_deps g) -> d_src d <> k /\ d_snk d <> k.
+  Hypothesis Hnochild : forall s, In s (g_steps g) -> s_creator s <> Some k.
+
+  Lemma cs_find_old x : x <> k -> find_step g' x = find_step g x.
+  Proof.
+    intros Hx. unfold find_step, g', create_step. cbn [g_steps with_steps].
+    apply find_app_other. cbn [s_key]. congruence.
+  Qed.
+
+  Lemma cs_find_in s : In s (g_steps g) -> s_key s <> k.
+  Proof. intros Hin E. apply Hfresh. rewrite <- E. apply in_map. exact Hin. Qed.
+
+  Lemma cs_creator_old s : In s (g_steps g) -> creator_step g' s = creator_step g s.
+  Proof.
+    intros Hin. unfold creator_step. destruct (s_creator s) as [c|] eqn:E; [|reflexivity].
+    apply cs_find_old. intros ->. apply (Hnochild s Hin). exact E.
+  Qed.
+
+  Lemma cs_aflag m : forall s, In s (g_steps g) -> aflag m g' s = aflag m g s.
+  Proof.
+    induction m as [|m IH]; intros s Hin; [reflexivity|]. cbn [aflag].
+    rewrite (cs_creator_old s Hin). destruct (creator_step g s) as [c|] eqn:E; [|reflexivity].
+    rewrite IH; [reflexivity | eapply creator_step_in; exact E].
+  Qed.
+  Lemma cs_safe_fuel m : forall s, In s (g_steps g) -> safe_fuel m g' s = safe_fuel m g s.
+  Proof.
+    induction m as [|m IH]; intros s Hin; [reflexivity|]. cbn [safe_fuel].
+    rewrite (cs_creator_old s Hin). destruct (creator_step g s) as [c|] eqn:E; [|reflexivity].
+    rewrite IH; [reflexivity | eapply creator_step_in; exact E].
+  Qed.
+
+  Lemma cs_steps : g_steps g' = g_steps g ++ [n].
+  Proof. reflexivity. Qed.
+
+  Theorem create_step_safe_sound rank :
+    CreatorRank g rank ->
+    (safe = true -> creator_step g' n = None) ->
+    FlagInv_safe g -> FlagInv_safe g'.
+  Proof.
+    intros HR Hsafe HF s Hin Ha. rewrite cs_steps in Hin. unfold L, safe_spec in *.
+    rewrite cs_steps, app_length in *. cbn [length] in *.
+    replace (length (g_steps g) + 1)%nat with (S (length (g_steps g))) in * by lia.
+    apply in_app_or in Hin. destruct Hin as [Hin|[<-|[]]].
+    - rewrite cs_aflag in Ha by exact Hin. rewrite cs_safe_fuel by exact Hin.
+      pose proof HR as [_ HR2]. pose proof (HR2 s Hin) as Hb.
+      rewrite (aflag_stable g rank HR _ (S (length (g_steps g))) s Hin) in Ha by lia.
+      rewrite (safe_fuel_stable g rank HR _ (length (g_steps g)) s Hin) by lia.
+      apply HF; assumption.
+    - cbn [aflag] in Ha. apply orb_false_iff in Ha. destruct Ha as [Ha _].
+      unfold n in Ha. cbn [s_chk_safe] in Ha. apply negb_false_iff in Ha.
+      cbn [safe_fuel]. rewrite (Hsafe Ha). unfold n. cbn [s_safe s_safe_nh]. rewrite Ha. reflexivity.
+  Qed.
+
+  Theorem create_step_ready_sound : FlagInv_ready g -> FlagInv_ready g'.
+  Proof.
+    intros HF s Hin Hc. rewrite cs_steps in Hin. unfold g', create_step. rewrite ready_spec_steps.
+    apply in_app_or in Hin. destruct Hin as [Hin|[<-|[]]]; [apply HF; assumption|].
+    unfold n in Hc. cbn in Hc. discriminate.
+  Qed.
+
+  Lemma cs_cons_keys x : cons_keys g' x = cons_keys g x.
+  Proof.
+    unfold cons_keys. change (g_deps g') with (g_deps g).
+    apply flat_map_ext. intros d1. destruct (d_src d1 =? x); [|reflexivity].
+    assert (H : forall l, (forall d, In d l -> In d (g_deps g)) ->
+      flat_map (fun d2 => if d_src d2 =? d_snk d1 then match find_step g' (d_snk d2) with
+                          | Some y => if s_detached y then [] else [s_key y] | None => [] end else []) l =
+      flat_map (fun d2 => if d_src d2 =? d_snk d1 then match find_step g (d_snk d2) with
+                          | Some y => if s_detached y then [] else [s_key y] | None => [] end else []) l).
+    { induction l as [|d2 l IH]; intros Hl; [reflexivity|]. cbn [flat_map].
+      rewrite IH by (intros; apply Hl; right; assumption).
+      rewrite cs_find_old by (apply (Hnodeps d2); apply Hl; left; reflexivity). reflexivity. }
+    apply H. auto.
+  Qed.
+
+  Lemma cs_local_k x : x <> k -> local_k g' x = local_k g x.
+  Proof.
+    intros Hx. unfold local_k. rewrite cs_find_old by exact Hx.
+    destruct (find_step g x); reflexivity.
+  Qed.
+
+  Lemma cs_vals_of x : x <> k -> vals_of g' x = vals_of g x.
+  Proof. intros Hx. unfold vals_of. rewrite cs_find_old by exact Hx. reflexivity. Qed.
+
+  Lemma cs_cons_old x y : In y (cons_keys g x) -> y <> k.
+  Proof.
+    intros Hy E. apply cons_keys_attached in Hy. apply attached_keys_step in Hy.
+    destruct Hy as [s [Hs [Ek _]]]. apply (cs_find_in s Hs). congruence.
+  Qed.
+
+  Lemma cs_seed0 y : In y (seed0 g) -> In y (seed0 g').
+  Proof.
+    unfold seed0. rewrite cs_steps, filter_app, map_app. intros H. apply in_or_app. left. exact H.
+  Qed.
+
+  Theorem create_step_need_sound : FlagInv_need g -> FlagInv_need g'.
+  Proof.
+    intros HF s Hin Hd Hc Hy. rewrite cs_steps in Hin.
+    apply in_app_or in Hin. destruct Hin as [Hin|[<-|[]]]; [|unfold n in Hc; cbn in Hc; discriminate].
+    pose proof (cs_find_in s Hin) as Hk.
+    unfold new_val. rewrite cs_cons_keys, (cs_local_k _ Hk). cbn [fst].
+    rewrite (HF s Hin Hd Hc).
+    - unfold new_val. cbn [fst]. f_equal. f_equal. apply map_ext_in. intros y Hyc.
+      rewrite (cs_vals_of y (cs_cons_old _ _ Hyc)). reflexivity.
+    - intros y Hyc Hys. apply (Hy y); [rewrite cs_cons_keys; exact Hyc | apply cs_seed0; exact Hys].
+  Qed.
+End CreateStep.
+
+(* ---- File.set_state and _implied_need: only a change to or from VOLATILE could matter ---- *)
+
+Section FileStateNeed.
+  Variable g : graph.
+  Variables (k st : N) (h : bool).
+  Hypothesis Hvol : forall f, In f (g_files g) -> f_key f = k ->
+    (f_state f =? FS_VOLATILE) = (st =? FS_VOLATILE).
+  Let g1 := with_files g (map (fstateF k st h) (g_files g)).
+
+  Lemma fs_regular f : In f (g_files g) -> regular_output (fstateF k st h f) = regular_output f.
+  Proof.
+    intros Hin. rewrite !regular_output_meaning. unfold fstateF.
+    destruct (f_key f =? k) eqn:E; [|reflexivity]. apply N.eqb_eq in E.
+    cbn [set_fstate f_detached f_state]. rewrite (Hvol f Hin E). reflexivity.
+  Qed.
+
+  Lemma fs_outputs x : outputs g1 x = map (fstateF k st h) (outputs g x).
+  Proof.
+    unfold outputs. change (g_deps g1) with (g_deps g).
+    induction (g_deps g) as [|d l IH]; [reflexivity|]. cbn [flat_map]. rewrite map_app, IH. f_equal.
+    destruct (d_src d =? x); [|reflexivity]. unfold g1. rewrite find_file_map.
+    destruct (find_file g (d_snk d)); reflexivity.
+  Qed.
+
+  Lemma fs_outputs_in x f : In f (outputs g x) -> In f (g_files g).
+  Proof.
+    unfold outputs. intros H. apply in_flat_map in H. destruct H as [d [_ H]].
+    destruct (d_src d =? x); [|destruct H]. destruct (find_file g (d_snk d)) as [f'|] eqn:E; [|destruct H].
+    destruct H as [<-|[]]. unfold find_file in E. apply find_some in E. tauto.
+  Qed.
+
+  Lemma fs_existsb (p q : file -> bool) l :
+    (forall f, In f l -> p (fstateF k st h f) = q f) -> existsb p (map (fstateF k st h) l) = existsb q l.
+  Proof.
+    induction l as [|a l IH]; intros H; [reflexivity|]. cbn [map existsb].
+    rewrite (H a (or_introl eq_refl)), IH; [reflexivity | intros; apply H; right; assumption].
+  Qed.
+
+  Lemma fs_label f : f_label (fstateF k st h f) = f_label f.
+  Proof. unfold fstateF. destruct (f_key f =? k); reflexivity. Qed.
+
+  Lemma fs_local_k x : local_k g1 x = local_k g x.
+  Proof.
+    unfold local_k. change (find_step g1 x) with (find_step g x).
+    destruct (find_step g x) as [s|]; [|reflexivity].
+    unfold local_need, elev. rewrite fs_outputs.
+    rewrite (fs_existsb (fun f => regular_output f && is_target g1 f) (fun f => regular_output f && is_target g f)).
+    - rewrite (fs_existsb (fun f => regular_output f && in_tdir g1 f) (fun f => regular_output f && in_tdir g f)); [reflexivity|].
+      intros f Hf. rewrite fs_regular by (eapply fs_outputs_in; exact Hf).
+      unfold in_tdir. rewrite fs_label. reflexivity.
+    - intros f Hf. rewrite fs_regular by (eapply fs_outputs_in; exact Hf).
+      unfold is_target. rewrite fs_label. reflexivity.
+  Qed.
+
+  Lemma fs_need_files : FlagInv_need g -> FlagInv_need g1.
+  Proof.
+    intros HF s Hin Hd Hc Hy. change (In s (g_steps g)) in Hin.
+    change (cons_keys g1 (s_key s)) with (cons_keys g (s_key s)) in Hy.
+    change (seed0 g1) with (seed0 g) in Hy.
+    unfold new_val. rewrite fs_local_k.
+    change (cons_keys g1 (s_key s)) with (cons_keys g (s_key s)).
+    change (vals_of g1) with (vals_of g). apply (HF s Hin Hd Hc Hy).
+  Qed.
+
+  Theorem set_file_state_need_sound : FlagInv_need g -> FlagInv_need (set_file_state g k st h).
+  Proof.
+    intros HF. unfold set_file_state. destruct (find_file g k) as [f0|]; [|exact HF].
+    change (with_files g (map (fun f => if f_key f =? k then set_fstate f st h else f) (g_files g))) with g1.
+    destruct (negb trg_file_state_upd_on_change_only || negb (f_state f0 =? st)).
+    - rewrite run_trigger_mapg. apply FlagInv_need_only_flags; [apply trigF_only_flags|]. apply fs_need_files. exact HF.
+    - apply fs_need_files. exact HF.
+  Qed.
+End FileStateNeed.
+
+(* ---- Step.detach / Step.reattach and _safe ---- *)
+
+Lemma aflag_steps_only g1 g2 : g_steps g1 = g_steps g2 -> forall n s, aflag n g1 s = aflag n g2 s.
+Proof.
+  intros E. induction n as [|n IH]; intros s; [reflexivity|]. cbn [aflag].
+  assert (Hc : creator_step g1 s = creator_step g2 s) by (unfold creator_step, find_step; rewrite E; reflexivity).
+  rewrite Hc. destruct (creator_step g2 s); [rewrite IH|]; reflexivity.
+Qed.
+Lemma safe_fuel_steps_only g1 g2 : g_steps g1 = g_steps g2 -> forall n s, safe_fuel n g1 s = safe_fuel n g2 s.
+Proof.
+  intros E. induction n as [|n IH]; intros s; [reflexivity|]. cbn [safe_fuel].
+  assert (Hc : creator_step g1 s = creator_step g2 s) by (unfold creator_step, find_step; rewrite E; reflexivity).
+  rewrite Hc. destruct (creator_step g2 s); [rewrite IH|]; reflexivity.
+Qed.
+Lemma FlagInv_safe_steps_only g1 g2 : g_steps g1 = g_steps g2 -> FlagInv_safe g1 -> FlagInv_safe g2.
+Proof.
+  intros E HF s Hin Ha. unfold L, safe_spec in *. rewrite <- E in *.
+  rewrite <- (aflag_steps_only g1 g2 E) in Ha. rewrite <- (safe_fuel_steps_only g1 g2 E). apply HF; assumption.
+Qed.
+
+(* step maps that leave alone everything _safe reads, except the creator of the step k *)
+Record place_map (k : N) (F : step -> step) : Prop := {
+  pm_key : forall s, s_key (F s) = s_key s;
+  pm_safe : forall s, s_safe (F s) = s_safe s;
+  pm_safe_nh : forall s, s_safe_nh (F s) = s_safe_nh s;
+  pm_state : forall s, s_state (F s) = s_state s;
+  pm_holding : forall s, s_holding (F s) = s_holding s;
+  pm_cs : forall s, s_chk_safe s = true -> s_chk_safe (F s) = true;
+  pm_creator : forall s, s_key s <> k -> s_creator (F s) = s_creator s }.
+
+Definition place_rel (k : N) (g g' : graph) : Prop :=
+  exists F, g_steps g' = map F (g_steps g) /\ place_map k F.
+
+Lemma place_rel_refl k g : place_rel k g g.
+Proof. exists (fun s => s). split; [symmetry; apply map_id | constructor; auto]. Qed.
+
+Lemma place_rel_trans k g g1 g2 : place_rel k g g1 -> place_rel k g1 g2 -> place_rel k g g2.
+Proof.
+  intros [F1 [E1 P1]] [F2 [E2 P2]]. exists (fun s => F2 (F1 s)). split; [rewrite E2, E1, map_map; reflexivity|].
+  constructor; intros s.
+  - rewrite (pm_key k F2 P2), (pm_key k F1 P1). reflexivity.
+  - rewrite (pm_safe k F2 P2), (pm_safe k F1 P1). reflexivity.
+  - rewrite (pm_safe_nh k F2 P2), (pm_safe_nh k F1 P1). reflexivity.
+  - rewrite (pm_state k F2 P2), (pm_state k F1 P1). reflexivity.
+  - rewrite (pm_holding k F2 P2), (pm_holding k F1 P1). reflexivity.
+  - intros H. apply (pm_cs k F2 P2), (pm_cs k F1 P1), H.
+  - intros H. rewrite (pm_creator k F2 P2), (pm_creator k F1 P1); [reflexivity | exact H |].
+    rewrite (pm_key k F1 P1). exact H.
+Qed.
+
+Lemma place_rel_only_flags k g F : only_flags F -> place_rel k g (mapg F g).
+Proof.
+  intros O. pose proof (of_keeps F O) as K. exists F. split; [reflexivity|].
+  constructor; intros s; try apply K; try apply O. intros _. apply K.
+Qed.
+
+Lemma place_rel_trigger k g body self d : place_rel k g (run_trigger body self d g).
+Proof. rewrite run_trigger_mapg. apply place_rel_only_flags. apply trigF_only_flags. Qed.
+
+Lemma place_rel_flag_keys k g c ks : place_rel k g (flag_keys c ks g).
+Proof. rewrite flag_keys_mapg. apply place_rel_only_flags. apply flagF_only_flags. Qed.
+
+Lemma place_rel_set_detached k g ks b : place_rel k g (set_detached_nodes g ks b).
+Proof.
+  unfold set_detached_nodes.
+  match goal with |- place_rel k g (fold_left ?f ?l ?a) =>
+    apply (fold_inv f (place_rel k g) l a) end.
+  - exists (fun s => if mem_N (s_key s) ks then set_place s b (s_creator s) else s).
+    split; [reflexivity|]. constructor; intros s; destruct (mem_N (s_key s) ks); auto.
+  - intros a x Ha. eapply place_rel_trans; [exact Ha | apply place_rel_trigger].
+Qed.
+
+Lemma place_rel_set_place k g det cr :
+  place_rel k g (with_steps g (map (fun s => if s_key s =? k then set_place s det cr else s) (g_steps g))).
+Proof.
+  eexists. split; [reflexivity|]. constructor; intros s; destruct (s_key s =? k) eqn:E; auto.
+  intros H. apply N.eqb_eq in E. contradiction.
+Qed.
+
+Lemma place_rel_flag_with_products k g x : place_rel k g (flag_with_products g x).
+Proof.
+  unfold flag_with_products. eapply place_rel_trans; apply place_rel_flag_keys.
+Qed.
+
+Lemma flag_with_products_flags g k s : In s (g_steps (flag_with_products g k)) -> s_key s = k ->
+  s_chk_safe s = true.
+Proof.
+  rewrite flag_with_products_mapg. unfold mapg. cbn [g_steps with_steps]. intros Hin Hk.
+  apply in_map_iff in Hin. destruct Hin as [s0 [<- _]]. unfold step_subtree.
+  apply subtreeF_flags_head. rewrite <- Hk. symmetry.
+  apply (k_key _ (of_keeps _ (subtreeF_only_flags _))).
+Qed.
+
+(* a place_rel step that ends with the step k flagged keeps the invariant *)
+Lemma place_rel_safe_sound k g g' :
+  place_rel k g g' -> (forall s, In s (g_steps g') -> s_key s = k -> s_chk_safe s = true) ->
+  FlagInv_safe g -> FlagInv_safe g'.
+Proof.
+  intros [F [E P]] Hk HF.
+  apply (FlagInv_safe_steps_only (mapg F g) g'); [symmetry; exact E|].
+  apply FlagInv_safe_mono; [|exact HF]. constructor; try apply P.
+  intros s Hin Hc.
+  assert (Hne : s_key s <> k).
+  { intros Ek. rewrite (Hk (F s)) in Hc; [discriminate | rewrite E; apply in_map; exact Hin |].
+    rewrite (pm_key k F P). exact Ek. }
+  unfold ok_h, ok_nh. rewrite (pm_state k F P), (pm_holding k F P), (pm_creator k F P s Hne).
+  repeat split; reflexivity.
+Qed.
+
+Lemma place_rel_keeps_flag k g g' : place_rel k g g' ->
+  (forall s, In s (g_steps g) -> s_key s = k -> s_chk_safe s = true) ->
+  forall s, In s (g_steps g') -> s_key s = k -> s_chk_safe s = true.
+Proof.
+  intros [F [E P]] H s Hin Hk. rewrite E in Hin. apply in_map_iff in Hin. destruct Hin as [s0 [<- Hin0]].
+  apply (pm_cs k F P). apply H; [exact Hin0|]. rewrite <- Hk. symmetry. apply (pm_key k F P).
+Qed.
+
+Theorem detach_step_safe_sound g k : FlagInv_safe g -> FlagInv_safe (detach_step g k).
+Proof.
+  intros HF. unfold detach_step. destruct (find_step g k) as [s0|]; [|exact HF].
+  set (g2 := match s_creator s0 with
+             | Some _ => _
+             | None => g end).
+  assert (R2 : place_rel k g g2).
+  { unfold g2. destruct (s_creator s0); [|apply place_rel_refl].
+    assert (R1 : place_rel k g (with_steps (set_detached_nodes g [k] true)
+               (map (fun s => if s_key s =? k then set_place s true None else s)
+                    (g_steps (set_detached_nodes g [k] true))))).
+    { eapply place_rel_trans; [apply place_rel_set_detached | apply place_rel_set_place]. }
+    destruct (s_detached s0); [exact R1|].
+    eapply place_rel_trans; [exact R1 | apply place_rel_set_detached]. }
+  apply (place_rel_safe_sound k g); [| |exact HF].
+  - eapply place_rel_trans; [exact R2|].
+    eapply place_rel_trans; [apply place_rel_flag_with_products|].
+    unfold flag_after_sources. apply place_rel_flag_keys.
+  - apply (place_rel_keeps_flag k (flag_with_products g2 k)).
+    + unfold flag_after_sources. apply place_rel_flag_keys.
+    + apply flag_with_products_flags.
+Qed.
+
+Theorem reattach_step_safe_sound g k c cdet : FlagInv_safe g -> FlagInv_safe (reattach_step g k c cdet).
+Proof.
+  intros HF. unfold reattach_step.
+  apply (place_rel_safe_sound k g); [| |exact HF].
+  - eapply place_rel_trans; [apply place_rel_set_detached|].
+    eapply place_rel_trans; [apply place_rel_set_place|].
+    eapply place_rel_trans; [apply place_rel_set_detached|].
+    apply place_rel_flag_with_products.
+  - apply flag_with_products_flags.
+Qed.
